@@ -19,7 +19,7 @@ MODES = ("unchecked", "skip", "wrap")
 FLOORS = {"quick": dict({f"cell:{m}:{'dmp' if d else 'difflib'}:{s}": 1500
                          for m in MODES for d in (True, False) for s in ("nosrc", "forced", "edited")},
                         **{"markup_docs": 300, "style_repair_moved": 100, "empty_spans": 1000,
-                           "overlapping_sets": 1000, "annotations_emitted": 20000}),
+                           "overlapping_sets": 1000, "annotations_emitted": 20000, "style:link": 15000, "style:sentinel": 15000}),
           "thorough": {"cases": 400000, "markup_docs": 20000, "style_repair_moved": 5000}}
 N = {"quick": 1400, "thorough": 60000}
 SHARDS = {"quick": 8, "thorough": 14}
@@ -53,9 +53,11 @@ def one(rec, plain, anns, source, mode, dmp, cell, case):
         return None
     rec.ev()
     target = source if source else plain
-    n = len(A.SENT.findall(out))
-    rec.count("annotations_emitted", n // 2)
-    if A.strip_sentinels(out) != target:
+    n = out.count("«") - out.count("«/")
+    rec.count("annotations_emitted", n)
+    rec.count("style:" + case.get("style", "sentinel"))
+    # delete exactly the strings passed to this call (not "anything that looks like a sentinel")
+    if A.strip_passed(out, anns) != target:
         rec.violation("C09.text_changed", case, observed=out[:400], expected=target[:400])
     return out
 
@@ -104,14 +106,15 @@ def run_shard(spec, rec):
         ss = sorted(sp)
         if any(ss[i + 1][0] < ss[i][1] for i in range(len(ss) - 1)):
             rec.count("overlapping_sets")
-        anns = A.annotations(sp)
         if "«" in p or "«" in (src or ""):
             continue
         emitted = False
+        style = "link" if k % 3 == 1 else "sentinel"
         for mode in MODES:
             for dmp in (True, False):
                 cell = f"cell:{mode}:{'dmp' if dmp else 'difflib'}:{kind}"
-                case = dict(plain=p, source=src, spans=sp, mode=mode, dmp=dmp, annotator=(k % 5 == 0))
+                case = dict(plain=p, source=src, spans=sp, mode=mode, dmp=dmp, annotator=(k % 5 == 0), style=style)
+                anns = A.link_annotations(sp) if style == "link" else A.annotations(sp)
                 out = one(rec, p, anns, src, mode, dmp, cell, case)
                 emitted = emitted or (out is not None and "«" in out)
         if emitted:
@@ -141,14 +144,23 @@ def extracted_case(rng, rec):
         if 0 <= a <= b <= len(plain):
             sp.append((a, b))
     rec.count("markup_docs")
-    anns = A.annotations(sp)
+    style = rng.choice(["link", "sentinel"])
+    mk = (lambda: A.link_annotations(sp)) if style == "link" else (lambda: A.annotations(sp))
     for mode in MODES:
-        one(rec, plain, anns, m, mode, True, f"markup:{mode}", dict(plain=plain, source=m, spans=sp, mode=mode, dmp=True))
-    one(rec, plain, anns, m, "skip", False, "markup:skip:difflib", dict(plain=plain, source=m, spans=sp, mode="skip", dmp=False))
+        one(rec, plain, mk(), m, mode, True, f"markup:{mode}", dict(plain=plain, source=m, spans=sp, mode=mode, dmp=True, style=style))
+    one(rec, plain, mk(), m, "skip", False, "markup:skip:difflib", dict(plain=plain, source=m, spans=sp, mode="skip", dmp=False, style=style))
     if sp:
         rec.nontrivial([plain, m, sp])
 
 
 def replay(w, rec):
     c = w["case"]
-    one(rec, c["plain"], A.annotations([tuple(x) for x in c["spans"]]), c["source"], c["mode"], c["dmp"], "replay", c)
+    sp = [tuple(x) for x in c["spans"]]
+    if c.get("style") == "link":
+        # the witness depends on an earlier call having used the shared closing string: make one
+        from eyecite import annotate_citations
+        try:
+            annotate_citations("ab", A.link_annotations([(0, 2)]), source_text="a<i>b", unbalanced_tags="wrap")
+        except Exception:
+            pass
+    one(rec, c["plain"], A.link_annotations(sp) if c.get("style") == "link" else A.annotations(sp), c["source"], c["mode"], c["dmp"], "replay", c)
